@@ -260,8 +260,16 @@ def build(model, db):
         class Lone(db.Entity):
             code = PK(str)
             alias = Req(str, unique=True)
-        return dict(tables={'Grp': dict(id=(1, 1)), 'Stu': dict(grp=(1, 1), serial=(1, 2), code=(1, 0), nick=(0, 0)), 'Lone': dict(code=(1, 1), alias=(1, 0))},
-                    unique={'Stu': [('serial',), ('serial', 'code'), ('nick',)], 'Lone': [('alias',)]}, indexes={}, fks={'Stu': [(('grp',), 'Grp')]})
+        class Doc(db.Entity):                             # a unique attribute of a base entity ...
+            number = Req(str, unique=True)
+            ref = Req(str, unique=True)
+        class Inv(Doc):                                   # ... covered again by indexes declared in a subclass (created AFTER the single-column unique index)
+            year = Opt(int)
+            orm.composite_index(year, 'number'); orm.composite_key(year, 'ref')
+        return dict(tables={'Grp': dict(id=(1, 1)), 'Stu': dict(grp=(1, 1), serial=(1, 2), code=(1, 0), nick=(0, 0)), 'Lone': dict(code=(1, 1), alias=(1, 0)),
+                            'Doc': dict(id=(1, 1), classtype=(1, 0), number=(1, 0), ref=(1, 0), year=(0, 0))},
+                    unique={'Stu': [('serial',), ('serial', 'code'), ('nick',)], 'Lone': [('alias',)], 'Doc': [('number',), ('ref',), ('year', 'ref')]},
+                    indexes={'Doc': [('year', 'number')]}, fks={'Stu': [(('grp',), 'Grp')]})
     if model == 'reference_cycles':
         # foreign keys in both directions between two tables (one of them composite), in both alphabetical orders: whichever table is created first, the key that
         # points at the later one can only be added afterwards
